@@ -289,6 +289,20 @@ def gen_container_then_element(n):
     return n
 
 
+def ret_none_expr(d):
+    # an EXPRESSION that evaluates to None is returned (not the constant None)
+    return d.get("missing")
+
+
+def ret_none_attr(p):
+    return p._v
+
+
+def gen_ret_none_expr(d):
+    yield 1
+    return d.get("missing")
+
+
 def make_fact():
     # a self-recursive closure that no caller keeps in a local: only its OWN frame's locals (the free variable `fact`) name it
     def fact(n):
@@ -322,5 +336,5 @@ NESTING_CALLS = [
     "M.use_prop(1)", "M.use_prop([1])", "M.lam_user(2)", "M.mid_catches(None)", "getattr(M.Prop(1), 'broken', None)",
     "M.mutate_and_return([1])", "M.fill_dict({'k1': 0})", "list(M.gen_mutating([]))",
     "M.AbcShape.make(1)", "M.AbcSquare().area(2)", "M.AbcSquare.build(3)", "M.Colour.parse('x')", "M.Colour.RED.shade(1)",
-    "M.call_back(1)", "M.CALLBACKS['k']('s')", "list(M.gen_container_then_element(1))", "M.make_fact()(3)", "M.show(1)", "M.show('a')", "M.show(2.5)", "M.show(2)",
+    "M.ret_none_expr({'k': 1})", "M.ret_none_attr(M.Prop(None))", "list(M.gen_ret_none_expr({}))", "M.call_back(1)", "M.CALLBACKS['k']('s')", "list(M.gen_container_then_element(1))", "M.make_fact()(3)", "M.show(1)", "M.show('a')", "M.show(2.5)", "M.show(2)",
 ]
